@@ -55,7 +55,9 @@ PROP = {'rule': 'rapid state machine, one unit per combination of EnableRuntimeQ
                       {'run': 'TestVerifC03PodUpdatesRuntimeOnParentOff', 'quick': 1500, 'thorough': 1000, 'steps': 70},
                       {'run': 'TestVerifC03PodUpdatesRuntimeOffParentOn', 'quick': 1500, 'thorough': 1000, 'steps': 70},
                       {'run': 'TestVerifC03ParkedPodUpdatesRuntimeOnParentOn', 'quick': 1500, 'thorough': 1000, 'steps': 70},
-                      {'run': 'TestVerifC03ParkedPodUpdatesRuntimeOffParentOff', 'quick': 1500, 'thorough': 1000, 'steps': 70}]}],
+                      {'run': 'TestVerifC03ParkedPodUpdatesRuntimeOffParentOff', 'quick': 1500, 'thorough': 1000, 'steps': 70},
+                      {'run': 'TestVerifC03ParentPodsRuntimeOffParentOn', 'quick': 1500, 'thorough': 1000, 'steps': 70},
+                      {'run': 'TestVerifC03ParentPodsRuntimeOnParentOff', 'quick': 1500, 'thorough': 1000, 'steps': 70}]}],
  'manifest': {'technique': 'property-based testing (rapid): model-based state machine over the closed loop pod add -> PreFilter -> Reserve -> '
                            'bind/Unreserve -> delete with quota and capacity changes, per-attempt decision oracle + history invariant',
               'text': 'Generated-history search over the real ElasticQuota plugin for each of the four runtime-quota x check-parent settings. A '
